@@ -1,4 +1,5 @@
 import ZapVerif.Proofs.Sampler
+import ZapVerif.Proofs.TransSampler
 /-! # C11 — the sampler admits the first N then every Mth entry per level and message per tick
 
 Property theorems only; the model is `Model/Sampler.lean` (+ `Model/SamplerConc.lean` for the atomic-step
@@ -224,5 +225,170 @@ example : Conc.allDone (Conc.run 10 (Conc.initSt ⟨100, 4⟩ [7, 7, 50]) [2, 0,
 example : Conc.allDone (Conc.run 10 (Conc.initSt ⟨100, 4⟩ [100, 100, 105]) [0, 1, 0, 0, 2, 2, 1, 1, 1]) = true ∧
     Conc.rets (Conc.run 10 (Conc.initSt ⟨100, 4⟩ [100, 100, 105]) [0, 1, 0, 0, 2, 2, 1, 1, 1]).ths = [1, 2, 2] := by
   decide
+
+end ZapVerif.C11
+
+/-! ## the model's counter and hash ARE the source (Go→GoMini translation, docs/TRANSLATOR.md)
+
+`Gen/TransSampler.lean` holds the bodies of `fnv32a`, `counter.IncCheckReset` and `sampler.Check` as read from
+zapcore/sampler.go on this run, as GoMini terms.  The theorems below run them in the GoMini interpreter on ALL inputs
+and get exactly `Sampler.fnv32a`, `Sampler.inc` and `Sampler.check`.  The atomics carry their sequential meaning
+(the concurrent claim is `open_window_exact`).  Hypotheses: lengths fit `int`; the counter does not wrap
+(`n + 1 < 2^64`); `NoOverflow t tick` — the same hypothesis the window theorems carry.  `en` is the wrapped
+core's `Enabled`. -/
+namespace ZapVerif.C11
+set_option linter.unusedSimpArgs false
+open ZapVerif ZapVerif.Sampler ZapVerif.GoMini ZapVerif.TransSampler ZapVerif.Gen.TransSampler
+
+/-- the loop of `fnv32a`: one xor-then-multiply round per byte, on uint32 -/
+theorem fnv32a_loop_matches_source (en : Int → Bool) (s : Bytes) (hs : s.length < 2^63) (h0 : UInt32) (fuel : Nat) :
+    execS (X en) (exec (X en) (fuel + s.length + 0)) fnv32a_loop0
+        ⟨[("p0", .bytes s), ("l0", .int h0.toNat), ("l1", .int (0 : Nat))], []⟩ =
+      .normal ⟨[("p0", .bytes s), ("l0", .int (s.foldl (fun h b => (h ^^^ b.toUInt32) * fnvPrime) h0).toNat),
+                ("l1", .int s.length)], []⟩ := by
+  unfold fnv32a_loop0
+  refine (loop_fold (α := Nat × UInt32) (X en) _ _ _ 0
+    (fun a => ⟨[("p0", .bytes s), ("l0", .int a.2.toNat), ("l1", .int a.1)], []⟩) (fun a => a.1 ≤ s.length)
+    (fun a => decide (a.1 < s.length))
+    (fun a => (a.1 + 1, (a.2 ^^^ (s.getD a.1 0).toUInt32) * fnvPrime))
+    (fun a => (s.length, (s.drop a.1).foldl (fun h b => (h ^^^ b.toUInt32) * fnvPrime) a.2)) (fun a => s.length - a.1)
+    ?_ ?_ ?_ ?_ ?_ ?_ s.length (0, h0) fuel (Nat.zero_le _) (by simp)).trans (by simp)
+  · intro a _; simp
+  · intro a fuel _ hc
+    have hc' : a.1 < s.length := by simpa using hc
+    have hw : wrap .int ((a.1 : Int) + 1) = ((a.1 + 1 : Nat) : Int) := by
+      rw [wrap_int_id] <;> simp at hs ⊢ <;> omega
+    have hg : s[a.1]?.getD 0 = s[a.1] := by simp [hc']
+    simp [hw, indexVal_bytes s a.1 hc', fnv_round, hg]
+  · intro a ha hc
+    have : a.1 < s.length := by simpa using hc
+    show a.1 + 1 ≤ s.length
+    omega
+  · intro a ha hc
+    have : a.1 < s.length := by simpa using hc
+    show s.length - (a.1 + 1) < s.length - a.1
+    omega
+  · intro a ha hc
+    have h1 : ¬ a.1 < s.length := by simpa using hc
+    have h2 : a.1 ≤ s.length := ha
+    have : a.1 = s.length := by omega
+    obtain ⟨i, h⟩ := a
+    simp_all
+  · intro a ha hc
+    obtain ⟨i, h⟩ := a
+    have h1 : i < s.length := by simpa using hc
+    simp only [Prod.mk.injEq, true_and]
+    have hg : s.getD i 0 = s[i] := by simp [h1]
+    rw [List.drop_eq_getElem_cons h1, List.foldl_cons, hg]
+
+/-- `fnv32a(s)` ≡ `Sampler.fnv32a`: FNV-1a with wrapping uint32 multiplication, for every string -/
+theorem fnv32a_matches_source (en : Int → Bool) (s : Bytes) (hs : s.length < 2^63) (fuel : Nat) :
+    run (X en) (fuel + s.length + 1) "fnv32a" [.bytes s] [] = .done [.int (Sampler.fnv32a s).toNat] [] := by
+  refine run_of_fin (X en) _ _ Gen.TransSampler.fnv32a [.bytes s] _ _ _ rfl rfl ?_
+  show (exec (X en) (fuel + s.length + 1) fnv32a_body ⟨[("p0", .bytes s)], []⟩).fin = _
+  rw [exec_succ]
+  have := fnv32a_loop_matches_source en s hs fnvOffset fuel
+  simp [fnvOffset] at this
+  simp [fnv32a_body, this, Sampler.fnv32a, fnvOffset]
+
+/-- body of `counter.IncCheckReset` inside any larger field environment (`rest` is untouched) -/
+theorem IncCheckReset_exec_matches_source (en : Int → Bool) (c : Cell) (t tick : Int) (rest : Env) (fuel : Nat)
+    (hn : (c.n : Int) + 1 < 18446744073709551616) (hov : NoOverflow t tick) :
+    (exec (X en) (fuel + 1) IncCheckReset_body ⟨[("p0", .int t), ("p1", .int tick)], cellFld c.resetAt c.n rest⟩).fin =
+      some ([.int (inc c t tick).2], cellFld (inc c t tick).1.resetAt (inc c t tick).1.n rest) := by
+  rw [exec_succ]
+  have hw : wrap .u64 ((c.n : Int) + 1) = ((c.n + 1 : Nat) : Int) := by
+    rw [wrap_u64_id] <;> omega
+  have hw2 : wrap .i64 (t + tick) = t + tick := by
+    unfold NoOverflow at hov
+    rw [wrap_i64_id] <;> omega
+  by_cases h : c.resetAt > t
+  · have h' : t < c.resetAt := h
+    simp [IncCheckReset_body, inc, h, h', hw]
+  · have h' : ¬ t < c.resetAt := h
+    simp [IncCheckReset_body, inc, h, h', hw2]
+
+/-- `counter.IncCheckReset(t, tick)` ≡ `Sampler.inc` (sequential meaning of the atomics: `Load`, `Add(1)`,
+    `Store(1)`, `CompareAndSwap`, which cannot fail without a concurrent writer): the returned count and the new
+    `resetAt`/`counter`, for every cell and timestamp; `t + tick` inside int64 is `NoOverflow` -/
+theorem IncCheckReset_matches_source (en : Int → Bool) (c : Cell) (t tick : Int) (fuel : Nat)
+    (hn : (c.n : Int) + 1 < 18446744073709551616) (hov : NoOverflow t tick) :
+    run (X en) (fuel + 1) "IncCheckReset" [.int t, .int tick] (cellFld c.resetAt c.n []) =
+      .done [.int (inc c t tick).2] (cellFld (inc c t tick).1.resetAt (inc c t tick).1.n []) :=
+  run_of_fin (X en) _ _ Gen.TransSampler.IncCheckReset [.int t, .int tick] _ _ _ rfl rfl
+    (IncCheckReset_exec_matches_source en c t tick [] fuel hn hov)
+
+/-- `sampler.Check(ent, ce)` ≡ `Sampler.check`, on the cell `counts.get` selected: a disabled level returns `ce`
+    untouched; an in-range level counts (`IncCheckReset`, translated) and is dropped — hook called with `LogDropped`,
+    `ce` returned, nothing forwarded — iff `n > first && (thereafter == 0 || (n-first)%thereafter != 0)`, otherwise
+    the hook is called with `LogSampled` and the entry is forwarded to the wrapped core; an out-of-range level is
+    forwarded without counting and without a hook call.  The uint64 subtraction cannot wrap and `%` cannot divide
+    by zero (short-circuit `||`). -/
+theorem Check_matches_source (en : Int → Bool) (cfg : Cfg) (cs : Counters) (e : Entry) (ce : Val)
+    (hooks fwd : List Val) (fuel : Nat)
+    (hN : (cfg.N : Int) < 18446744073709551616) (hM : (cfg.M : Int) < 18446744073709551616)
+    (hn : ((cs e.key).n : Int) + 1 < 18446744073709551616) (hov : NoOverflow e.t cfg.tick) :
+    run (X en) (fuel + 2) "Check" [entV e, ce]
+        (cellFld (cs e.key).resetAt (cs e.key).n (sampRest cfg.N cfg.M cfg.tick hooks fwd)) =
+      .done [if (check cfg en cs e).2.forwarded then .list [ce] else ce]
+        (cellFld ((check cfg en cs e).1 e.key).resetAt ((check cfg en cs e).1 e.key).n
+          (sampRest cfg.N cfg.M cfg.tick (hooks ++ (check cfg en cs e).2.hook.map fun d => .int (decCode d))
+            (fwd ++ if (check cfg en cs e).2.forwarded then [entV e] else []))) := by
+  obtain ⟨N, M, tick⟩ := cfg
+  simp only at hN hM hov ⊢
+  refine run_of_fin (X en) _ _ Gen.TransSampler.Check [entV e, ce] _ _ _ rfl rfl ?_
+  show (exec (X en) (fuel + 2) Check_body ⟨[("p0", entV e), ("p1", ce)], _⟩).fin = _
+  rw [exec_succ]
+  have hinc : ∀ σ : State, retK σ [.loc "l1"] "IncCheckReset"
+      (exec (X en) (fuel + 1) IncCheckReset_body
+        ⟨[("p0", .int e.t), ("p1", .int tick)],
+          cellFld (cs e.key).resetAt (cs e.key).n (sampRest N M tick hooks fwd)⟩) = _ :=
+    fun σ => retK_of_fin1 σ _ _ _ _ _ (IncCheckReset_exec_matches_source en (cs e.key) e.t tick _ fuel hn hov)
+  cases hen : en e.level
+  · have hchk : check ⟨N, M, tick⟩ en cs e = (cs, ⟨[], false, none⟩) := by simp [check, hen]
+    rw [hchk]
+    simp [Check_body, entV, indexVal, hen]
+  · by_cases hlo : -1 ≤ e.level
+    · by_cases hhi : e.level ≤ 5
+      · have hr : inRange e.level = true := by simp [inRange, minLevel, maxLevel, hlo, hhi]
+        have hle : (inc (cs e.key) e.t tick).2 ≤ (cs e.key).n + 1 := by
+          unfold inc; split <;> simp
+        have hset : ∀ c : Cell, (cs.set e.key c) e.key = c := by intro c; simp [Counters.set]
+        have hchk : check ⟨N, M, tick⟩ en cs e =
+            if allows N M (inc (cs e.key) e.t tick).2
+            then (cs.set e.key (inc (cs e.key) e.t tick).1, ⟨[.sampled], true, some (inc (cs e.key) e.t tick).2⟩)
+            else (cs.set e.key (inc (cs e.key) e.t tick).1, ⟨[.dropped], false, some (inc (cs e.key) e.t tick).2⟩) := by
+          simp [check, hen, hr]
+        rw [hchk]
+        generalize inc (cs e.key) e.t tick = r at hinc hle ⊢
+        by_cases h1 : N < r.2
+        · by_cases h2 : M = 0
+          · subst h2
+            have hal : allows N 0 r.2 = false := by simp [allows, h1]
+            rw [show ((0 : Nat) : Int) = 0 from rfl] at hinc
+            simp [Check_body, entV, indexVal, hen, hlo, hhi, hinc, h1, hal, hset, decCode]
+          · have hsub : wrap .u64 ((r.2 : Int) - N) = ((r.2 - N : Nat) : Int) := by
+              rw [wrap_u64_id] <;> omega
+            have hmod : wrap .u64 ((((r.2 - N : Nat) : Int)).tmod M) = (((r.2 - N) % M : Nat) : Int) := by
+              rw [← Int.ofNat_tmod, wrap_u64_id]
+              · exact Int.natCast_nonneg _
+              · have := Nat.mod_lt (r.2 - N) (Nat.pos_of_ne_zero h2); omega
+            have h3' : (((r.2 - N : Nat) : Int) % (M : Int) = 0) ↔ (r.2 - N) % M = 0 := by
+              rw [← Int.natCast_emod]; exact Int.natCast_eq_zero
+            by_cases h3 : (r.2 - N) % M = 0
+            · have hal : allows N M r.2 = true := by simp [allows, h1, h2, h3]
+              simp [Check_body, entV, indexVal, hen, hlo, hhi, hinc, h1, h2, h3, h3', hal, hset, decCode, hsub, hmod]
+            · have hal : allows N M r.2 = false := by simp [allows, h1, h2, h3]
+              simp [Check_body, entV, indexVal, hen, hlo, hhi, hinc, h1, h2, h3, h3', hal, hset, decCode, hsub, hmod]
+        · have hal : allows N M r.2 = true := by simp [allows, h1]
+          simp [Check_body, entV, indexVal, hen, hlo, hhi, hinc, h1, hal, hset, decCode]
+      · have hr : inRange e.level = false := by simp [inRange, minLevel, maxLevel, hlo, hhi]
+        have hchk : check ⟨N, M, tick⟩ en cs e = (cs, ⟨[], true, none⟩) := by simp [check, hen, hr]
+        rw [hchk]
+        simp [Check_body, entV, indexVal, hen, hlo, hhi, hinc]
+    · have hr : inRange e.level = false := by simp [inRange, minLevel, maxLevel, hlo]
+      have hchk : check ⟨N, M, tick⟩ en cs e = (cs, ⟨[], true, none⟩) := by simp [check, hen, hr]
+      rw [hchk]
+      simp [Check_body, entV, indexVal, hen, hlo]
 
 end ZapVerif.C11
